@@ -64,8 +64,14 @@ pub fn cases(seed: u64, n: usize, join_path: &str) -> Vec<Case> {
         };
         let nl = 10 + rng.below(30);
         let lines = gen_input(&mut rng, nl, 15, false);
-        let cut = rng.below(lines.len() + 1);
-        let files = if rng.chance(1, 3) { vec![join_lines(&lines[..cut]), join_lines(&lines[cut..])] } else { vec![join_lines(&lines)] };
+        // 1..4 input files (rows of a plain query come out in command-line order of the files, then file order)
+        let nfiles = *rng.pick(&[1usize, 1, 2, 3, 4]);
+        let mut cuts: Vec<usize> = (0..nfiles - 1).map(|_| rng.below(lines.len() + 1)).collect();
+        cuts.sort();
+        let mut files = Vec::new();
+        let mut last = 0;
+        for c in cuts { files.push(join_lines(&lines[last..c])); last = c; }
+        files.push(join_lines(&lines[last..]));
         let defs = if rng.chance(1, 2) { format!("{}\n{}", sch.defs, EXTRA_TABLES) } else { sch.defs.clone() };
         out.push(Case { defs, query, files, joined: joined.clone() });
     }
@@ -104,6 +110,28 @@ pub fn run(p: &Params) -> Run {
         let desc = format!("query={} files={:?}", c.query, c.files.iter().map(|f| String::from_utf8_lossy(f).to_string()).collect::<Vec<_>>());
         if first[i] != second[i] {
             run.fail(desc.clone(), "differs-within-process", format!("{} vs {}", first[i], second[i]));
+        }
+        // rows of a plain query come out in input order: over several files the output is the concatenation, in
+        // command-line order, of the outputs over each file alone
+        let q = c.query.to_uppercase();
+        if c.files.len() > 1 && !q.contains("GROUP BY") && !q.contains("DISTINCT") && !q.contains("LIMIT") && !q.contains("COUNT(") && !q.contains("SUM(") && !q.contains("MAX(") && !q.contains("MIN(") && !q.contains("AVG(") && !q.contains("_AGG(") && !q.contains("STDDEV") && !q.contains("VARIANCE") && !q.contains("PERCENTILE") && !q.contains("BOOL_") {
+            std::fs::write(&jpath, &c.joined).unwrap();
+            if let Ok(prepared) = prepare(&c.defs, &c.query) {
+                let whole = run_files(&prepared, &c.files);
+                if whole.status == "ok" {
+                    let mut concat: Vec<String> = Vec::new();
+                    let mut all_ok = true;
+                    for f in &c.files {
+                        let one = run_files(&prepared, std::slice::from_ref(f));
+                        if one.status != "ok" { all_ok = false; break; }
+                        concat.extend(one.records());
+                    }
+                    run.oracle_checks += 1;
+                    if all_ok && whole.records() != concat {
+                        run.fail(desc.clone(), "rows-not-in-input-order", format!("over {} files the run prints {:?}; file by file in command-line order: {:?}", c.files.len(), whole.records(), concat));
+                    }
+                }
+            }
         }
         // correspondence: the model has no hash iteration at all, its answer is the single reference
         std::fs::write(&jpath, &c.joined).unwrap();
